@@ -7,7 +7,12 @@
 (* S = [dbs   : 0..15 -> key space,                                        *)
 (*      conns : open connection id -> connection record,                   *)
 (*      pass  : NoPass | password bytes (requirepass)]                     *)
-(* connection record = [db, authed, multi, queue, qerr, watch]             *)
+(* connection record = [db, authed, multi, queue, qerr, watch, subs, psubs, *)
+(*                      inbox]                                             *)
+(*   subs/psubs : channels / patterns subscribed; inbox : push frames the  *)
+(*                server owes this client, in order (C14)                  *)
+(*   closing : the client has closed its socket but the server may not     *)
+(*             have noticed yet (it must after one full event-loop pass)   *)
 (*   watch : <<db, key>> -> "clean" | "may" | "must"   (dirtiness since    *)
 (*           WATCH: nothing touched it / a no-op write addressed it /      *)
 (*           its value, existence or TTL changed)                          *)
@@ -20,7 +25,7 @@ NoPass == [k |-> "nopass"]
 NoObs == [t |-> "noobs"]
 
 NewConn(S) == [db |-> 0, authed |-> (S.pass = NoPass), multi |-> FALSE, queue |-> <<>>, qerr |-> FALSE,
-               watch |-> <<>>]
+               watch |-> <<>>, subs |-> {}, psubs |-> {}, inbox |-> <<>>, closing |-> FALSE]
 InitS == [dbs |-> [d \in DBs |-> EmptyK], conns |-> <<>>, pass |-> NoPass]
 
 SOut(r, S) == {[r |-> r, S |-> S, dv |-> {}]}
@@ -70,6 +75,64 @@ CmdAUTH(S, c, a) ==
   ELSE IF S.pass = NoPass THEN SFail(S)
   ELSE IF a[2] = S.pass THEN SOut(ROk, [S EXCEPT !.conns[c].authed = TRUE])
   ELSE SFail(S)
+
+-----------------------------------------------------------------------------
+(* PUB/SUB (C14).  A command of this family is answered by one frame per channel/pattern named. *)
+RMulti(fs) == [t |-> "multi", v |-> fs]
+SubCount(cn) == Cardinality(cn.subs) + Cardinality(cn.psubs)
+AckFrame(kind, name, n) == RArr(<<RBulk(kind), name, RInt(n)>>)
+
+RECURSIVE SubFrom(_, _, _, _, _)
+SubFrom(cn, a, i, pat, acc) == \* subscribe to a[i..]; acc = frames so far
+  IF i > Len(a) THEN [cn |-> cn, fs |-> acc]
+  ELSE LET cn2 == IF pat THEN [cn EXCEPT !.psubs = @ \cup {a[i]}] ELSE [cn EXCEPT !.subs = @ \cup {a[i]}]
+       IN SubFrom(cn2, a, i + 1, pat,
+                  Append(acc, AckFrame(IF pat THEN L_psubscribe ELSE L_subscribe, RBulk(a[i]), SubCount(cn2))))
+
+CmdSUBSCRIBE(S, c, a, pat) ==
+  IF Len(a) < 2 THEN SFail(S)
+  ELSE LET res == SubFrom(S.conns[c], a, 2, pat, <<>>)
+       IN SOut(RMulti(res.fs), [S EXCEPT !.conns[c] = res.cn])
+
+RECURSIVE UnsubFrom(_, _, _, _, _)
+UnsubFrom(cn, a, i, pat, acc) ==
+  IF i > Len(a) THEN [cn |-> cn, fs |-> acc]
+  ELSE LET cn2 == IF pat THEN [cn EXCEPT !.psubs = @ \ {a[i]}] ELSE [cn EXCEPT !.subs = @ \ {a[i]}]
+       IN UnsubFrom(cn2, a, i + 1, pat,
+                    Append(acc, AckFrame(IF pat THEN L_punsubscribe ELSE L_unsubscribe, RBulk(a[i]), SubCount(cn2))))
+
+(* without arguments: one frame per current subscription in any order, counts decreasing;
+   a single frame with a nil name when there is nothing to unsubscribe from *)
+CmdUNSUBSCRIBE(S, c, a, pat) ==
+  LET cn == S.conns[c]
+      kind == IF pat THEN L_punsubscribe ELSE L_unsubscribe
+      cur == IF pat THEN cn.psubs ELSE cn.subs
+      other == IF pat THEN Cardinality(cn.subs) ELSE Cardinality(cn.psubs)
+      cleared == IF pat THEN [cn EXCEPT !.psubs = {}] ELSE [cn EXCEPT !.subs = {}]
+  IN IF Len(a) >= 2
+     THEN LET res == UnsubFrom(cn, a, 2, pat, <<>>) IN SOut(RMulti(res.fs), [S EXCEPT !.conns[c] = res.cn])
+     ELSE IF cur = {} THEN SOut(RMulti(<<AckFrame(kind, RNil, other)>>), S)
+     ELSE SOut([t |-> "unsuball", kind |-> kind, chans |-> cur, base |-> other], [S EXCEPT !.conns[c] = cleared])
+
+(* frames a PUBLISH on ch owes connection x, in order: the channel subscription first is not prescribed,
+   so the frames of one publish to one client form a bag *)
+PubFrames(cn, ch, msg) ==
+  (IF ch \in cn.subs THEN <<RArr(<<RBulk(L_message), RBulk(ch), RBulk(msg)>>)>> ELSE <<>>)
+  \o LET ps == SetToSeq({p \in cn.psubs : Glob(p, ch)})
+     IN [i \in 1..Len(ps) |-> RArr(<<RBulk(L_pmessage), RBulk(ps[i]), RBulk(ch), RBulk(msg)>>)]
+
+CmdPUBLISH(S, a) ==
+  IF Len(a) # 3 THEN SFail(S)
+  ELSE LET fr == [x \in DOMAIN S.conns |-> PubFrames(S.conns[x], a[2], a[3])]
+           RECURSIVE Sum(_)
+           Sum(X) == IF X = {} THEN 0 ELSE LET x == CHOOSE x \in X : TRUE IN Len(fr[x]) + Sum(X \ {x})
+           live == {x \in DOMAIN S.conns : ~S.conns[x].closing}
+           (* a client that has just closed its socket may or may not still be counted *)
+           reply == IF live = DOMAIN S.conns THEN RInt(Sum(live)) ELSE RIntRange(Sum(live), Sum(DOMAIN S.conns))
+       IN SOut(reply,
+               [S EXCEPT !.conns = [x \in DOMAIN S.conns |->
+                  IF fr[x] = <<>> \/ S.conns[x].closing THEN S.conns[x]
+                  ELSE [S.conns[x] EXCEPT !.inbox = Append(@, fr[x])]]])    \* one bag per publish
 
 -----------------------------------------------------------------------------
 (* WATCH bookkeeping *)
@@ -160,6 +223,11 @@ Exec1(S, c, a, tm, obs, inTxn) ==
                [] name = "DISCARD" -> CmdDISCARD(S, c, a)
                [] name = "WATCH" -> CmdWATCH(S, c, a)
                [] name = "UNWATCH" -> CmdUNWATCH(S, c, a)
+               [] name = "SUBSCRIBE" -> CmdSUBSCRIBE(S, c, a, FALSE)
+               [] name = "PSUBSCRIBE" -> CmdSUBSCRIBE(S, c, a, TRUE)
+               [] name = "UNSUBSCRIBE" -> CmdUNSUBSCRIBE(S, c, a, FALSE)
+               [] name = "PUNSUBSCRIBE" -> CmdUNSUBSCRIBE(S, c, a, TRUE)
+               [] name = "PUBLISH" -> CmdPUBLISH(S, a)
                [] name = "?" -> SFail(S)
                [] OTHER -> SOut(RAny, S)
   IN {[o EXCEPT !.S = MarkWatch(S, o.S, d, name, a, o.r)] : o \in raw}
